@@ -131,3 +131,65 @@ def strip_casts(expr: ast.AST) -> ast.AST:
     ):
         expr = expr.args[1]
     return expr
+
+
+def _defines(node: ast.AST, name: str) -> bool:
+    """node (a statement, searched without entering nested scopes) binds `name`."""
+    for n in [node, *walk_local(node)]:
+        if isinstance(n, ast.Name) and n.id == name and isinstance(n.ctx, (ast.Store, ast.Del)):
+            # comprehension targets live in their own scope
+            p = parent(n)
+            while p is not None and p is not node and not isinstance(p, ast.comprehension):
+                p = parent(p)
+            if isinstance(p, ast.comprehension):
+                continue
+            return True
+        if isinstance(n, ast.ExceptHandler) and n.name == name:
+            return True
+    return False
+
+
+def reaching_value(func: ast.AST, use: ast.AST, name: str):
+    """(stmt, value) of the plain assignment `name = value` that dominates `use` and is
+    the closest definition on every path, or None when the reaching definition is not a
+    single dominating plain assignment (flow-sensitive refinement of `definitions`)."""
+    from .control import block_path
+
+    try:
+        path = block_path(func, use)
+    except Exception:
+        return None
+    for container, field, blk, idx in reversed(path):
+        for st in reversed(blk[:idx]):
+            if isinstance(st, ast.Assign) and len(st.targets) == 1 and isinstance(st.targets[0], ast.Name) \
+                    and st.targets[0].id == name:
+                return st, st.value
+            if isinstance(st, ast.AnnAssign) and isinstance(st.target, ast.Name) and st.target.id == name \
+                    and st.value is not None:
+                return st, st.value
+            if _defines(st, name):
+                return None
+        if isinstance(container, (ast.For, ast.While)) and field == "body":
+            # a definition later in the loop body reaches the use on the next iteration
+            if any(_defines(st, name) for st in blk[idx:] if st is not blk[idx]) or _defines_outside_use(blk[idx], use, name):
+                return None
+            if isinstance(container, ast.For) and any(
+                    isinstance(t, ast.Name) and t.id == name for t, _ in _targets(container.target)):
+                return None
+        if isinstance(container, (ast.With,)):
+            for it in container.items:
+                if it.optional_vars is not None and any(
+                        isinstance(t, ast.Name) and t.id == name for t, _ in _targets(it.optional_vars)):
+                    return None
+        if isinstance(container, ast.ExceptHandler) and container.name == name:
+            return None
+    return None
+
+
+def _defines_outside_use(stmt: ast.AST, use: ast.AST, name: str) -> bool:
+    """stmt (which contains use) also binds name somewhere (conservative)."""
+    if isinstance(stmt, (ast.Assign, ast.AnnAssign, ast.AugAssign, ast.Expr, ast.Return)):
+        # a simple statement that both uses and binds (x = f(x)): the binding happens
+        # after the use is evaluated, and it is found as a preceding definition elsewhere
+        return False
+    return _defines(stmt, name)
